@@ -312,14 +312,15 @@ class Pool(object):
     def close(self):
         if not self.closed:
             log.debug("closing down")
-            for w in list(self.busy):
-                w.process(None)
-            for w in list(self.idle):
-                w.process(None)
-            self.closed = True
+            with self.count_lock:
+                # busy workers are told to stop by notify_done() once their current job has ended;
+                # writing None into their job slot here could overwrite a job they have not picked up yet.
+                for w in list(self.idle):
+                    w.process(None)
+                self.closed = True
+                idle, self.idle = self.idle, set()
+                busy, self.busy = self.busy, set()
             time.sleep(0.1)
-            idle, self.idle = self.idle, set()
-            busy, self.busy = self.busy, set()
             # check if the threads that are joined are not the current thread.
             current_thread = threading.current_thread()
             while idle:
